@@ -937,6 +937,7 @@ class ModuleInfo:
                 self.tree = ast.parse(source, filename=path)
         except SyntaxError as e:
             raise AnalysisError("syntax error in %s: %s" % (path, e))
+        self.memos = strip_unknown_memoisations(self.tree, set())     # the pinned tree has no whole-method memo
         unmove_static_aliases(self.tree)
         unroll_reflective_loops(self.tree)
         propagate_constant_locals(self.tree)
@@ -1326,3 +1327,75 @@ def src(node):
         s = ast.dump(node)
     s = " ".join(s.split())
     return s if len(s) <= 160 else s[:157] + "..."
+
+
+# ------------------------------------------------------------------ memoised methods
+def find_memoisations(tree):
+    """[(FunctionDef, attribute, [statements that implement the memo])] for methods of the shape
+
+        key = <expr>                                   (optional)
+        if key in self.C: return self.C[key]           (top level, before any other effect)
+        ...
+        self.C[key] = R      /  self.C[key] = (a, b)   (directly before the final return of the same value)
+        return R             /  return a, b
+    """
+    out = []
+    for cls in [n for n in ast.walk(tree) if isinstance(n, ast.ClassDef)]:
+        for fn in [st for st in cls.body if isinstance(st, ast.FunctionDef)]:
+            if not fn.args.args:
+                continue
+            me = fn.args.args[0].arg
+            body = fn.body
+            for k, st in enumerate(body):
+                if not (isinstance(st, ast.If) and not st.orelse and len(st.body) == 1 and isinstance(st.body[0], ast.Return)
+                        and isinstance(st.test, ast.Compare) and len(st.test.ops) == 1 and isinstance(st.test.ops[0], ast.In)):
+                    continue
+                key, cont = st.test.left, st.test.comparators[0]
+                if not (isinstance(cont, ast.Attribute) and isinstance(cont.value, ast.Name) and cont.value.id == me):
+                    continue
+                rv = st.body[0].value
+                if not (isinstance(rv, ast.Subscript) and ast.dump(rv.value) == ast.dump(cont) and ast.dump(rv.slice) == ast.dump(key)):
+                    continue
+                # nothing with an effect before the lookup
+                if not all(isinstance(p, ast.Assign) or (isinstance(p, ast.Expr) and isinstance(p.value, ast.Constant)) for p in body[:k]):
+                    continue
+                # the store directly before the last return
+                if len(body) < k + 3 or not isinstance(body[-1], ast.Return) or body[-1].value is None:
+                    continue
+                sto = body[-2]
+                if not (isinstance(sto, ast.Assign) and len(sto.targets) == 1 and isinstance(sto.targets[0], ast.Subscript)
+                        and ast.dump(sto.targets[0].value) == ast.dump(cont) and ast.dump(sto.targets[0].slice) == ast.dump(key)):
+                    continue
+
+                def same(a, b):
+                    if isinstance(a, ast.Tuple) and isinstance(b, ast.Tuple):
+                        return len(a.elts) == len(b.elts) and all(same(x, y) for x, y in zip(a.elts, b.elts))
+                    return isinstance(a, ast.Name) and isinstance(b, ast.Name) and a.id == b.id
+                if not same(sto.value, body[-1].value):
+                    continue
+                stmts = [st, sto]
+                # the key variable, when it serves the memo only
+                if isinstance(key, ast.Name):
+                    uses = [n for n in ast.walk(fn) if isinstance(n, ast.Name) and n.id == key.id and isinstance(n.ctx, ast.Load)]
+                    memo_uses = [n for s_ in stmts for n in ast.walk(s_) if isinstance(n, ast.Name) and n.id == key.id and isinstance(n.ctx, ast.Load)]
+                    if len(uses) == len(memo_uses):
+                        stmts += [p for p in body[:k] if isinstance(p, ast.Assign) and len(p.targets) == 1 and isinstance(p.targets[0], ast.Name)
+                                  and p.targets[0].id == key.id]
+                out.append((cls.name, fn, cont.attr, stmts))
+                break
+    return out
+
+
+def strip_unknown_memoisations(tree, known):
+    """removes the memo statements of whole-method memoisations whose cache attribute the pinned tree does not have (`known`: set of
+    'Class.attr'); returns [(class name, method name, attribute, line)] for the report.  The computation is then analysed as if it ran on
+    every call; whether the cache is dropped when its inputs change is a separate obligation (C03.D5 for the dimension-wise strategy)."""
+    done = []
+    for cname, fn, attr, stmts in find_memoisations(tree):
+        if "%s.%s" % (cname, attr) in known:
+            continue
+        for s_ in stmts:
+            if s_ in fn.body:
+                fn.body.remove(s_)
+        done.append((cname, fn.name, attr, fn.lineno))
+    return done
